@@ -31,6 +31,11 @@ CHECKS = {
    note="Trusted: MySQL / PostgreSQL precedence tables transcribed from the manuals; operand slots where manual and real grammar are known to disagree (MySQL: bare arithmetic right operand of LIKE, boolean BETWEEN bounds) are excluded and counted as excluded_undecidable. Two genuine defects repaired by fix: commits.",
    technique=TECH+"all expression trees up to a node bound, oracle = reference precedence parser + real SQLite engine",
    ref="3.5"),
+ "C06": dict(
+   text="(i) Every condition tree (Cond::any/all, negate flags, empty groups, add_option(None)) with depth <= 3, width <= 3 and <= 7 (quick) / 8 (thorough) nodes in SELECT WHERE, and the complete depth<=2/width<=2 set in HAVING, JOIN ON, UPDATE WHERE, DELETE WHERE, CASE WHEN, ON CONFLICT target/action WHERE and partial-index WHERE; (ii) every sequence of up to 3 condition-adding calls (and_where, and_where_option(None|Some), cond_where(tree) over a 47-entry menu; 106 k sequences) on the real ConditionHolder. Oracle: a three-valued evaluator of the supplied trees under all 81 TRUE/FALSE/NULL assignments of four atoms; the rendered predicate is parsed by the dialect's reference parser and evaluated by the same evaluator (3 dialects), and SQLite statements are executed by the real engine over a table holding every assignment (SELECT / UPDATE / DELETE row sets must be exactly the TRUE assignments). No supplied condition => no predicate keyword.",
+   note="Trusted: the 30-line three-valued evaluator; atoms are `col = 1` over columns holding 1/0/NULL. FALSE vs NULL is separated because the tree space is closed under negated wrappers.",
+   technique=TECH+"all condition trees up to a size bound and all call sequences up to depth 3, oracle = three-valued truth tables on a real SQLite engine",
+   ref="3.6"),
  "C10": dict(
    text="Explicit-state BFS over ALL histories of a 27-operation INSERT alphabet (columns / values / values_panic / values_from_panic / select_from / or_default_values*, column counts 0..3, row lengths 0..4) up to depth 6 (quick) / 8 (thorough) on the real InsertStatement, in lock-step with a plain-list reference model. Per step: Result / panic vs the contract, error counts, statement unchanged after a rejection. Per state: rendering on 3 backends x {to_string, build} parsed back by an independent parser and compared with the model (rectangularity, call order, default-values form).",
    note="Trusted: the reference model of the documented contract (lists), the reference lexer and the 150-line INSERT parser. One genuine defect is a known finding (columns() after a source was accepted).",
